@@ -250,4 +250,125 @@ example : let s := exMax
     (s.assignMeta 0 (some 0)).2 = .err .BadOperation ∧ (s.assignMeta 0 (some 0)).1.objs = s.objs ∧
     (s.assignMeta 0 (some 0)).1.hnd = s.hnd := by decide
 
+/-! ### the C++ handle class `mpt::reference<T>` with objects that own handles -/
+
+/-- operations on handle slots; slot `nroot + o` is the handle object `o` owns, so `assign h (nroot + o)` is the
+    assignment FROM an owned handle (`it = it->next`) and `assign (nroot + o) g` the assignment TO one -/
+inductive XOp where
+  | assign (h g : Nat)        -- copy assignment / copy construction into an empty slot
+  | move (h g : Nat)          -- move assignment
+  | drop (h : Nat)            -- `set_instance(0)`, destructor
+  | detach (h : Nat)          -- the reference leaves the handle
+  | extUnref (o : Nat)        -- an outside reference is given back
+  deriving Repr
+
+/-- one operation, followed by the destruction of the handles of every object it destroyed -/
+def xstep (nroot fuel : Nat) (s : St) : XOp → St
+  | .assign h g => if h < s.hnd.length then (s.assignRef h (s.hnd.getD g none)).cascade nroot fuel else s
+  | .move h g => if h < s.hnd.length ∧ g < s.hnd.length then (s.moveRef h g).cascade nroot fuel else s
+  | .drop h => if h < s.hnd.length then (s.drop h).cascade nroot fuel else s
+  | .detach h => if h < s.hnd.length then s.detachRef h else s
+  | .extUnref o => if 1 ≤ (s.obj o).ext then (s.extUnref o).cascade nroot fuel else s
+
+def xrun (nroot fuel : Nat) (s : St) : List XOp → St
+  | [] => s
+  | op :: ops => xrun nroot fuel (xstep nroot fuel s op) ops
+
+theorem xstep_inv (nroot fuel : Nat) (s : St) (op : XOp) (hI : Inv s) (hs : Slots s nroot) :
+    Inv (xstep nroot fuel s op) ∧ Slots (xstep nroot fuel s op) nroot := by
+  cases op <;> simp only [xstep]
+  case assign h g =>
+    split
+    next hc =>
+      have sh := assignRef_shape s h (s.hnd.getD g none)
+      exact ⟨cascade_inv _ nroot fuel (assignRef_inv s h _ hI hc) (slots_of_shape s _ nroot sh hs),
+             slots_of_shape s _ nroot (by rw [cascade_shape, sh]) hs⟩
+    next => exact ⟨hI, hs⟩
+  case move h g =>
+    split
+    next hc =>
+      have sh := moveRef_shape s h g
+      exact ⟨cascade_inv _ nroot fuel (moveRef_inv s h g hI hc.1 hc.2) (slots_of_shape s _ nroot sh hs),
+             slots_of_shape s _ nroot (by rw [cascade_shape, sh]) hs⟩
+    next => exact ⟨hI, hs⟩
+  case drop h =>
+    split
+    next hc =>
+      have sh := drop_shape s h
+      exact ⟨cascade_inv _ nroot fuel (drop_inv s h hI hc) (slots_of_shape s _ nroot sh hs),
+             slots_of_shape s _ nroot (by rw [cascade_shape, sh]) hs⟩
+    next => exact ⟨hI, hs⟩
+  case detach h =>
+    split
+    next hc => exact ⟨detachRef_inv s h hI hc, slots_of_shape s _ nroot (detachRef_shape s h) hs⟩
+    next => exact ⟨hI, hs⟩
+  case extUnref o =>
+    split
+    next hc =>
+      have sh := extUnref_shape s o
+      exact ⟨cascade_inv _ nroot fuel (extUnref_inv s o hI hc) (slots_of_shape s _ nroot sh hs),
+             slots_of_shape s _ nroot (by rw [cascade_shape, sh]) hs⟩
+    next => exact ⟨hI, hs⟩
+
+/-- **exact, C++ handles**: for every history of copy/move assignment (from and to handles owned by objects),
+    drop, detach and outside release — each followed by the destruction of the handles of destroyed objects —
+    the counter of every object equals the number of references to it: outside ones, free-standing handles and
+    handles owned by other objects -/
+theorem exact_cxx (nroot fuel : Nat) (ops : List XOp) (s : St) (hI : Inv s) (hs : Slots s nroot) :
+    Inv (xrun nroot fuel s ops) := by
+  induction ops generalizing s with
+  | nil => exact hI
+  | cons op ops ih =>
+    obtain ⟨a, b⟩ := xstep_inv nroot fuel s op hI hs
+    exact ih _ a b
+
+/-- **never earlier, C++ handles** — in particular for `it = it->next` where `it` holds the last reference to
+    the owner of `next`: whatever a handle (free-standing or owned) names after any history is alive -/
+theorem referenced_alive_cxx (nroot fuel : Nat) (ops : List XOp) (s : St) (hI : Inv s) (hs : Slots s nroot) (h o : Nat)
+    (hn : (xrun nroot fuel s ops).hnd.getD h none = some o) : ((xrun nroot fuel s ops).obj o).alive = true :=
+  inv_referenced_alive _ (exact_cxx nroot fuel ops s hI hs) h o hn
+
+/-- **assign_balanced, C++ handle**: `operator=` on slot `h` with a source naming `src` (possibly a handle
+    owned by the old referent): nothing for the same referent; otherwise the slot names the new referent — or
+    nothing when it could not be retained — the new referent has one reference more and the replaced one one
+    less (before the handles of destroyed objects are destroyed in turn) -/
+theorem assign_balanced_cxx (s : St) (h : Nat) (src : Option Nat) (hI : Inv s) (hh : h < s.hnd.length) :
+    ∃ src', (src' = src ∨ src' = none) ∧ (s.assignRef h src).hnd = s.hnd.set h src' ∧
+      ∀ x, (((s.assignRef h src).obj x).count : Int) = (s.obj x).count + ind src' x - ind (s.hnd.getD h none) x := by
+  have hI' := assignRef_inv s h src hI hh
+  by_cases he : src = s.hnd.getD h none
+  · refine ⟨src, Or.inl rfl, ?_, fun x => ?_⟩
+    · unfold St.assignRef; simp only [he, ↓reduceIte]
+      apply List.ext_getElem?
+      intro i
+      rw [List.getElem?_set]
+      split
+      · rename_i e; subst e; simp [List.getD_eq_getElem?_getD, hh]
+      · rfl
+    · unfold St.assignRef; simp only [he, ↓reduceIte]; omega
+  · have hhnd : (s.assignRef h src).hnd = s.hnd.set h (if (s.retain src).2 then src else none) := by
+      unfold St.assignRef; simp only [he, ↓reduceIte, release_hnd, retain_hnd]
+    have hext : ∀ x, ((s.assignRef h src).obj x).ext = (s.obj x).ext := by
+      intro x; unfold St.assignRef; simp only [he, ↓reduceIte]
+      show (((s.retain src).1.release (s.hnd.getD h none)).obj x).ext = _
+      rw [release_ext, retain_ext]
+    refine ⟨if (s.retain src).2 then src else none, by split <;> simp, hhnd, fun x => ?_⟩
+    have c1 := count_of_inv _ hI' x
+    have c0 := count_of_inv _ hI x
+    rw [hext x, hhnd] at c1
+    have hs := hrefs_set s.hnd h (if (s.retain src).2 then src else none) x hh
+    simp only [ind]
+    by_cases e1 : s.hnd.getD h none = some x <;> by_cases e2 : (if (s.retain src).2 then src else none) = some x <;>
+      simp only [e1, e2, ↓reduceIte] at hs c1 ⊢ <;> omega
+
+/-- example state: o0 -> o1 through the handle o0 owns (slot 3), only handle 0 holds o0 -/
+def exChain : St :=
+  { objs := [{ kind := .hmeta, count := 1, alive := true, ext := 0 }, { kind := .hmeta, count := 1, alive := true, ext := 0 }],
+    hnd := [some 0, none, none, some 1, none], ev := [{}, {}] }
+
+-- `it = it->next`: o0 is destroyed (and with it the handle it owns), o1 lives on with exactly one reference
+example : let s := xstep 3 3 exChain (.assign 0 3)
+    s.hnd = [some 1, none, none, none, none] ∧ (s.obj 0).alive = false ∧ (s.obj 1).alive = true ∧ (s.obj 1).count = 1 := by
+  decide
+
 end Mpt.C15
